@@ -27,6 +27,7 @@
 #include <signal.h>
 #include <sys/mman.h>
 #include <sys/wait.h>
+#include <sys/time.h>
 
 namespace pbt {
 
@@ -138,6 +139,7 @@ inline bool run_forked(Body body, const Case &c, Ctx &ctx)
     if (pid == 0) {
         int fd = open(errpath, O_WRONLY | O_CREAT | O_TRUNC, 0600);
         if (fd >= 0) { dup2(fd, 2); close(fd); }
+        signal(SIGALRM, SIG_DFL); // (the parent's watchdog handler is inherited; the child wants the default: die)
         alarm(fork_timeout());
         Ctx cc;
         bool ok = body(c, cc);
@@ -210,9 +212,12 @@ inline uint64_t mix(uint64_t a, uint64_t b)
     z = (z ^ (z >> 30)) * 0xBF58476D1CE4E5B9ull; z = (z ^ (z >> 27)) * 0x94D049BB133111EBull; return z ^ (z >> 31);
 }
 
+inline volatile uint64_t &progress() { static volatile uint64_t p = 0; return p; } // cases finished (watchdog)
+
 inline void account(const PropDef &p, const Case &c, const Ctx &ctx)
 {
     Stats &S = stats();
+    progress() = progress() + 1;
     S.evaluations++;
     S.per_prop[p.name]++;
     for (auto *n : ctx.classes) {
@@ -227,6 +232,25 @@ inline void account(const PropDef &p, const Case &c, const Ctx &ctx)
         S.nontrivial++;
         if (S.distinct.size() < Stats::DISTINCT_CAP) S.distinct.insert(c.hash()); else S.capped = true;
     }
+}
+
+// watchdog for in-process cases: if no case finishes between two ticks the current case is declared
+// non-terminating (abort -> the driver attributes the crash to the recorded current case)
+inline void watchdog_tick(int)
+{
+    static uint64_t last = (uint64_t)-1;
+    if (progress() == last) {
+        const char m[] = "WATCHDOG: no case finished for a whole watchdog period: the current case does not terminate\n";
+        if (write(2, m, sizeof m - 1) < 0) {}
+        abort();
+    }
+    last = progress();
+}
+inline void watchdog_start(int period_s)
+{
+    struct sigaction sa; memset(&sa, 0, sizeof sa); sa.sa_handler = watchdog_tick; sigaction(SIGALRM, &sa, nullptr);
+    struct itimerval it; it.it_interval.tv_sec = period_s; it.it_interval.tv_usec = 0; it.it_value = it.it_interval;
+    setitimer(ITIMER_REAL, &it, nullptr);
 }
 
 inline int harness_main(int argc, char **argv, const char *harness, std::vector<PropDef> props)
@@ -255,6 +279,7 @@ inline int harness_main(int argc, char **argv, const char *harness, std::vector<
         else { fprintf(stderr, "unknown arg %s\n", a.c_str()); return 2; }
     }
     auto t0 = std::chrono::steady_clock::now();
+    watchdog_start(fork_timeout() + 60);
     if (!o.casefile.empty()) {
         int fd = open(o.casefile.c_str(), O_RDWR | O_CREAT | O_TRUNC, 0600);
         if (fd >= 0 && ftruncate(fd, CASEFILE_SZ) == 0) {
@@ -333,7 +358,7 @@ inline int harness_main(int argc, char **argv, const char *harness, std::vector<
             Ctx ctx;
             casefile_note(c);
             bool ok = ((p.forked || o.forkall) && !o.nofork) ? run_forked(p.body, c, ctx) : p.body(c, ctx);
-            if (seen_fail) stats().shrink_evals++; else account(p, c, ctx);
+            if (seen_fail) { stats().shrink_evals++; progress() = progress() + 1; } else account(p, c, ctx);
             if (!ok) { seen_fail = true; lastfail = c; lastwhy = ctx.why; }
             RC_ASSERT(ok);
         }, md, params);
